@@ -176,8 +176,11 @@ def validate (c : Chan) (n info : Nat) (sigs : SigFact) (policyOk : Bool) : R :=
     if sigs = .oob then fail c .panic                       -- `counterparty_htlc_sigs[ndx]` out of bounds
     else if sigs ≠ .valid then fail c .errPolicy
     else
-      let c' := if n = c.next then { c with nextInfo := some info } else c
-      { c := c', out := { res := .ok, validated := some n }, persisted := true }
+      -- the staged commitment is recorded and persisted only for `n = next`; an accepted retry of the current
+      -- commitment (or a look-ahead validate of `next + 1`) changes nothing and does not write (fix 9e99981)
+      if n = c.next then
+        { c := { c with nextInfo := some info }, out := { res := .ok, validated := some n }, persisted := true }
+      else { c := c, out := { res := .ok, validated := some n }, persisted := false }
   | r => fail c r
 
 /-- `release_commitment_secret(n)`: the point of `n+1` and, for `n ≥ 1`, the secret of `n-1` -/
